@@ -603,3 +603,38 @@ def exists_range(lo, hi, body: Callable, name='q'):
 
 
 _q = itertools.count()
+
+
+def parts_prefix_conditions(got: SStr, want: SStr):
+    """Structural test that `got` starts with `want`: walks the two part lists; constants are compared character-wise,
+    symbolic string parts must be the same term, integer parts give an equality condition.  Returns a list of z3
+    conditions (all must hold) or None when the structures differ (then fall back to the string solver)."""
+    g = [list(p) for p in got.parts]
+    w = [list(p) for p in want.parts]
+    conds = []
+    gi = 0
+    for wp in w:
+        if wp[0] == 'c':
+            text = wp[1]
+            while text:
+                if gi >= len(g) or g[gi][0] != 'c':
+                    return None
+                have = g[gi][1]
+                k = min(len(have), len(text))
+                if have[:k] != text[:k]:
+                    return [z3.BoolVal(False)]
+                text = text[k:]
+                if k == len(have):
+                    gi += 1
+                else:
+                    g[gi][1] = have[k:]
+        else:
+            if gi >= len(g) or g[gi][0] != wp[0]:
+                return None
+            if wp[0] == 's':
+                if not z3.eq(g[gi][1], wp[1]):
+                    conds.append(g[gi][1] == wp[1])
+            else:
+                conds.append(g[gi][1] == wp[1])
+            gi += 1
+    return conds
